@@ -150,6 +150,15 @@ def run(ctx):
             txt = "# %s scenario %s with memory orders extracted from the code:\n# %s\n" % (module, scen, consts)
             ctx.tlc_violation(res, module + ":" + scen, key="wmm:%s:%s:%s" % (scen, res.violated_name, desc), replay_extra=txt)
         ctx.sample({"model": module, "scenario": scen, "orders": {k: mos[k] for k in used}, "distinct_states": res.distinct})
+    # 3. lock-based components: the shape of every critical section (which state changes happen under the lock, which
+    # lock operations a call performs, nothing guarded touched after the unlock) is bound by the multi-thread replays at
+    # lock grain of the queue and of the thread pool (interposed std::mutex / condition_variable)
+    from checks import c09, c11
+    c09.conc_replay(ctx, tag="lockq", max_paths_quick=600)
+    rpp = vlib.compile_harness(os.path.join(vlib.VERIF, "harness/pool_replay.cpp"), "pool_replay", extra_flags=["-rdynamic"])
+    for k, (script, nw) in enumerate([(["co", "fn", "stop"], 1), (["det", "stop", "fn", "co"], 2), (["fn", "wst", "co"], 2)]):
+        c11.run_script(ctx, rpp, script, nw, "lockp%d" % k, 300 if ctx.quick else 3000)
     ctx.assume("view-based RA+relaxed model (no load-buffering / out-of-thin-air executions), writes appended to the modification order, <= 7 messages per location, 2 threads per scenario")
     ctx.assume("plain accesses are where the WMM scenario programs place them (transcribed from the code); compiler transformations are trusted")
-    ctx.assume("lock-based components (queue, thread_pool, scheduler, publisher) rely on std::mutex; their lock discipline is not decided by this check")
+    ctx.assume("lock-based components: queue and thread_pool are bound by lock-grain replay (a moved/removed/added lock operation or a guarded "
+               "state change after the unlock diverges); scheduler and publisher lock discipline is not decided by this check")
